@@ -29,7 +29,7 @@ const (
 	bscChainID = 56
 )
 
-// bscKeys are four secp256k1 keys; validator i of the specification is the key with the i-th smallest address.
+// bscKeys are seven secp256k1 keys; validator i of the specification is the key with the i-th smallest address.
 type bscKeys struct {
 	Keys  []*ecdsa.PrivateKey // index 0 = validator 1
 	Addrs []common.Address
@@ -41,7 +41,7 @@ func newBSCKeys() *bscKeys {
 		a common.Address
 	}
 	var all []ka
-	for i := 0; len(all) < 4; i++ {
+	for i := 0; len(all) < 7; i++ {
 		h := sha256.Sum256([]byte{byte(i), 'b', 's', 'c'})
 		k, err := crypto.ToECDSA(h[:])
 		if err != nil {
